@@ -64,6 +64,30 @@ l_id = lambda a: a
 def h_multi(a):
     b = a + 1
     return b
+# helpers whose parameters are not all plain positional ones, a parameter named like another
+# helper, a decorated helper: inlined faithfully or left as calls by name
+def h_kwo(x, *, k=2):
+    return x * k
+def h_pos(a, /, b=1):
+    return a + b
+def h_var(x, *rest):
+    return (x, rest)[0] + 1
+def h_in(y):
+    return h_inc(y)
+def h_out(h_inc):
+    return h_in(h_inc)
+def h_in2(y):
+    return h_multi(y)
+def h_out2(h_multi):
+    return h_in2(h_multi)
+import functools
+def _twice(f):
+    @functools.wraps(f)
+    def w(a):
+        return 2 * f(a)
+    return w
+@_twice
+def h_wrapped(a): return a + 3
 '''
 
 # lambdas using the helpers; second item: may the helper stay un-inlined (call by name)?
@@ -91,6 +115,9 @@ CASES = [
     "lambda e: h_multi(e.x)",
     "lambda e: h_glob(e.x)", "lambda e: h_glob2(e.y) + h_glob(e.x)", "lambda e: h_clo5(e.x) - h_clo7(e.y)",
     "lambda e: e.jets.Select(lambda j: h_glob(j.pt))", "lambda H_OFF: h_glob(H_OFF.x)",
+    "lambda e: h_kwo(e.x)", "lambda e: h_kwo(e.x, k=e.y)", "lambda e: h_pos(e.x)", "lambda e: h_pos(e.x, 4)",
+    "lambda e: h_var(e.x)", "lambda e: h_var(e.x, e.y)", "lambda e: h_out(e.x)", "lambda e: h_wrapped(e.x)",
+    "lambda e: h_two(*(e.x, e.y))", "lambda e: h_out2(e.x)",
 ]
 
 
